@@ -224,19 +224,29 @@ def run(ctx, chk, tier="quick"):
     if jump_cmp is None:
         chk.indeterminate("C04.O2", where_of(g, mc), "jump flag is not a comparison: %s" % ast.unparse(jv)[:80])
     else:
-        try:
-            op, p = py_compare(jump_cmp)
-            l = jump_cmp.left
-            r = jump_cmp.comparators[0]
-            names = [x.id for x in (l, r) if isinstance(x, ast.Name)]
-            others = [n for n in names if n != thr]
-            rates_name = others[0] if others else None
-            want = py_compare(ast.parse("%s > %s" % (rates_name, thr), mode="eval").body) if rates_name else None
-            chk.ob("C04.O2", want is not None and (op, p) == want, where_of(g, jump_cmp), "jump := %s" % ast.unparse(jump_cmp),
+        l = jump_cmp.left
+        r = jump_cmp.comparators[0] if len(jump_cmp.ops) == 1 else None
+
+        def is_thr(n):
+            seen = 0
+            while isinstance(n, ast.Name) and n.id != thr and seen < 4:
+                v = gflow.def_value(n)
+                if v is None:
+                    break
+                n = v
+                seen += 1
+            return isinstance(n, ast.Name) and n.id == thr
+
+        if r is None or is_thr(l) == is_thr(r):
+            chk.indeterminate("C04.O2", where_of(g, jump_cmp), "jump comparison does not compare one rate vector with the threshold: %s" % ast.unparse(jump_cmp)[:80])
+        else:
+            rates_node = l if is_thr(r) else r
+            opn = type(jump_cmp.ops[0]).__name__
+            strict = (opn == "Gt" and is_thr(r)) or (opn == "Lt" and is_thr(l))
+            chk.ob("C04.O2", strict, where_of(g, jump_cmp), "jump := %s" % ast.unparse(jump_cmp)[:140],
                    "rate > rising jump threshold (strict)", key="classify_interstorms|jump-test",
                    why="an increment exactly at the threshold is not a jump")
-        except NotAlgebraic as exc:
-            chk.indeterminate("C04.O2", where_of(g, jump_cmp), "jump comparison: %s" % exc)
+            rates_name = rates_node
     # raining argument is the SQL raining column
     rv = root_name(a_rain)
     rain_ok = isinstance(rv, ast.Name) and rv.id == rain_name or (isinstance(a_rain, ast.Name) and a_rain.id == rain_name)
@@ -244,9 +254,9 @@ def run(ctx, chk, tier="quick"):
            "get_mystery_jump_mask(%s, %s)" % (ast.unparse(a_jump), ast.unparse(a_rain)), "(jump flags, raining flags) in that order",
            key="classify_interstorms|automaton-args", why="swapped inputs make rain set the flag and jumps clear it")
     # rates: right-aligned, per hour
-    if rates_name:
-        probe = [n for n in ast.walk(jump_cmp) if isinstance(n, ast.Name) and n.id == rates_name][0]
-        rdef = gflow.def_value(probe)
+    if rates_name is not None:
+        probe = rates_name
+        rdef = gflow.def_value(probe) if isinstance(probe, ast.Name) else probe
         align, desc, quotient = _rate_alignment(mod, gflow, rdef, level_name, epoch_name)
         if align == "unknown":
             chk.indeterminate("C04.O2", where_of(g, enclosing_stmt(probe)), "rate vector of unrecognised shape: %s" % desc[:100])
